@@ -131,23 +131,17 @@ func (self AnalyzedBoolLiteralExpression) Constant() bool    { return true }
 // String literal
 //
 
-// TODO: add more escapes
-func escapeHmsString(input string) string {
-	output := input
+// Escapes the contents of a string so that the lexer reads the original value again.
+var hmsStringEscaper = strings.NewReplacer(
+	"\\", "\\\\",
+	"\"", "\\\"",
+	"\n", "\\n",
+	"\r", "\\r",
+	"\t", "\\t",
+	"\b", "\\b",
+)
 
-	escapes := map[string]string{
-		"\n": "\\n",
-		"\"": "\\\"",
-		"\t": "\\n",
-	}
-
-	for from, to := range escapes {
-		output = strings.ReplaceAll(output, from, to)
-	}
-
-	return output
-
-}
+func escapeHmsString(input string) string { return hmsStringEscaper.Replace(input) }
 
 type AnalyzedStringLiteralExpression struct {
 	Value string
